@@ -448,3 +448,101 @@ def id_validity_tests(unit, field):
                 seen += 1
                 bad.append((f, n, "negated"))
     return seen, bad
+
+
+def array_bounds(fn, max_states=6000):
+    """Subscripts of fixed-size arrays (locals, record members) whose index is a constant or a variable (+ constant) for which the path
+    carries an upper bound (`i < K`, `i <= K`, `i == v`): the largest index reachable must lie inside the array.
+    -> (number of subscripts judged, [(node, array text, size, largest index)]); subscripts without a known bound are not judged."""
+    u = fn.unit
+    judged = set()
+    bad = {}
+
+    def size_of(base):
+        t = u.type_of(strip_casts(base))
+        return t.get("n") if t and t.get("k") == "arr" and t.get("n") else None
+
+    loops = fn.loops()
+    upd = {}        # variable -> [(block id, step or None)]
+    inits = {}      # variable -> [(block id, constant)]
+    for (b_, i_, n_) in fn.nodes(elsewhere=True):
+        if n_["k"] == "un" and ("++" in n_["op"] or "--" in n_["op"]) and strip_casts(n_["e"])["k"] == "ref":
+            upd.setdefault(strip_casts(n_["e"])["name"], []).append((b_.id, 1 if "++" in n_["op"] else None))
+        elif n_["k"] == "asg" and strip_casts(n_["l"])["k"] == "ref":
+            v_ = strip_casts(n_["l"])["name"]
+            if n_["op"] == "+=" and cv(n_["r"]) is not None and cv(n_["r"]) > 0:
+                upd.setdefault(v_, []).append((b_.id, cv(n_["r"])))
+            elif n_["op"] == "=" and cv(n_["r"]) is not None:
+                inits.setdefault(v_, []).append((b_.id, cv(n_["r"])))
+            else:
+                r_ = strip_casts(n_["r"])
+                if n_["op"] == "=" and r_ is not None and r_["k"] == "bin" and r_["op"] == "+" and root_var(r_["l"]) == v_ and cv(r_["r"]) is not None and cv(r_["r"]) > 0:
+                    upd.setdefault(v_, []).append((b_.id, cv(r_["r"])))
+                else:
+                    upd.setdefault(v_, []).append((b_.id, None))
+
+    def largest(var, bid, K):
+        """largest value of var below K at block bid, given the stride of the innermost loop around bid"""
+        inner = None
+        for (h, body) in loops:
+            if bid in body and (inner is None or len(body) < len(inner[1])):
+                inner = (h, body)
+        if inner is None:
+            return K - 1
+        steps = set(s_ for (ub, s_) in upd.get(var, ()) if ub in inner[1])
+        if not steps or steps == {1}:
+            return K - 1
+        if None in steps or len(steps) != 1:
+            return K - 1
+        s_ = steps.pop()
+        cands = [(ib, c_) for (ib, c_) in inits.get(var, ()) if ib not in inner[1] and fn.dominates(ib, inner[0])]
+        if not cands:
+            return K - 1
+        best = cands[0]
+        for c_ in cands[1:]:
+            if fn.dominates(best[0], c_[0]):
+                best = c_
+        i0 = best[1]
+        return K - 1 if K - 1 < i0 else i0 + s_ * ((K - 1 - i0) // s_)
+
+    def on_stmt(st, b, i, stmt):
+        for n in walk(stmt):
+            if n["k"] != "idx":
+                continue
+            nsz = size_of(n["base"])
+            if not nsz:
+                continue
+            ix = strip_casts(n["i"])
+            c = 0
+            if ix is not None and ix["k"] == "bin" and ix["op"] in ("+", "-") and cv(ix["r"]) is not None:
+                c = cv(ix["r"]) if ix["op"] == "+" else -cv(ix["r"])
+                ix = strip_casts(ix["l"])
+            if cv(n["i"]) is not None:
+                hi = cv(n["i"])
+            elif ix is not None and ix["k"] == "ref":
+                hi = None
+                for (fk, fop, fv) in st:
+                    if fk == ix["name"] and isinstance(fv, int):
+                        if fop == "==":
+                            hi = fv
+                            break
+                        if fop == "<":
+                            hv = largest(ix["name"], b.id, fv)
+                            hi = hv if hi is None else min(hi, hv)
+                        elif fop == "<=":
+                            hv = largest(ix["name"], b.id, fv + 1)
+                            hi = hv if hi is None else min(hi, hv)
+                if hi is None:
+                    continue
+                hi += c
+            else:
+                continue
+            judged.add(id(n))
+            if hi >= nsz and id(n) not in bad:
+                bad[id(n)] = (n, show(n["base"]), nsz, hi)
+        return [guards.transfer(st, stmt)]
+    try:
+        Flow(fn, [guards.EMPTY], on_stmt, lambda st, b, to, on: guards.edge_assume(st, b, on), max_states=max_states).run()
+    except AnalysisBroken:
+        pass            # what was judged until then stands; the rest is not judged
+    return len(judged), list(bad.values())
